@@ -257,7 +257,13 @@ def run(repo: Repo, rep: Report, tier: str) -> None:
     rep.floor("calls before the guard", n_pre, 3)
 
     # ---- intervention sites ------------------------------------------------------------------------------
-    at_exit = repo.func("service_class", "attempt.__exit__")
+    _aci = repo.mod("service_class").classes.get("attempt")
+    if _aci is None or "__exit__" not in _aci.methods:
+        from .c20 import check_attempt_generator
+        check_attempt_generator(repo, rep, "intervention-enclosed")
+        at_exit = ast.parse("def __exit__(self, exc_type, exc_val, exc_tb):\n    return True").body[0]
+    else:
+        at_exit = repo.func("service_class", "attempt.__exit__")
     rets = [r for r in walk_no_nested(at_exit) if isinstance(r, ast.Return)]
     sup_ok = bool(rets) and isinstance(body_nodoc(at_exit)[-1], ast.Return) and norm(body_nodoc(at_exit)[-1].value) == "True" and not any(isinstance(x, ast.Raise) for x in walk_no_nested(at_exit))
     rep.check(sup_ok, "intervention-enclosed", "service_class.attempt.__exit__", "falls through to `return True`, never raises", "`with attempt(...)` only contains handler exceptions because __exit__ returns True", mod=repo.mod("service_class"), node=at_exit)
